@@ -5,8 +5,9 @@
    (model/ClientSpec.v) states, independently of the routing code, which request a server message
    answers; `c16_monitor` is the executable statement of the property over operations and observations. *)
 From V.lib Require Import Base.
-From V.model Require Import Client ClientSpec.
-From V.proofs Require Import Client_Proofs Client16_Proofs.
+From V.gen Require Import RouterGen.
+From V.model Require Import Client ClientSpec RouterDSL.
+From V.proofs Require Import Client_Proofs Client16_Proofs Router_Proofs.
 
 (* On EVERY history (any number of concurrent calls of mixed kinds, any order / duplication of server
    responses, unsolicited and late responses, rejects, time-outs, outputs lookups) the monitor never objects:
@@ -28,6 +29,22 @@ Theorem C16_routes_to_answered : forall (m : smsg) (l : list pend),
               (r, l', match m, r with MHeaders _ _, None => true | _, _ => false end).
 Proof. exact route_answers. Qed.
 Print Assumptions C16_routes_to_answered.
+
+(* ... and that routing code is the code of the repository: gen/RouterGen.v is handleRequestResponse
+   (pkg/client/remote_client.go) translated statement by statement on every run (translator/router.go)
+   into the routing language of model/RouterDSL.v; for every message and every pending list it
+   computes what `route` computes, hence serves the first outstanding request the message answers *)
+Theorem C16_source_router_is_route : forall (m : smsg) (l : list pend),
+  exec_router router_shape_ok router_clauses router_tail m l = route m l.
+Proof. exact router_agrees. Qed.
+Print Assumptions C16_source_router_is_route.
+
+Theorem C16_source_router_answers : forall (m : smsg) (l : list pend),
+  exec_router router_shape_ok router_clauses router_tail m l =
+    let '(r, l') := take_first (fun p => answers m (p_kind p) (p_key p)) l in
+    (r, l', match m, r with MHeaders _ _, None => true | _, _ => false end).
+Proof. exact router_answers. Qed.
+Print Assumptions C16_source_router_answers.
 
 (* with distinct keys (fee quote requests have none: at most one outstanding) a message answers at
    most one outstanding request, so "the first" is "the" request: never another call's *)
